@@ -195,7 +195,8 @@ def build(desc, shuffle=False):
 
 def observe_expo(mod, expo_names, k=0):
     """matrix of coefficients between exposed names (in the given order) at sweep point k"""
-    idx = [mod.pin_dic[Pin(n)] for n in expo_names]
+    table = {p.name: i for p, i in mod.pin_dic.items()}     # by printable name (pins may carry modes)
+    idx = [table[n] for n in expo_names]
     S = np.asarray(mod.S)
     return np.array([[S[k, i, j] for j in idx] for i in idx], complex).reshape(len(idx), len(idx))
 
